@@ -5,9 +5,9 @@ Definition is_w2 (t : wthread) : N := match wt_stage t with W2 => 1 | _ => 0 end
 Definition is_w3 (t : wthread) : N := match wt_stage t with W3 => 1 | _ => 0 end.
 Fixpoint nw2 (l : list wthread) : N := match l with [] => 0 | t :: r => is_w2 t + nw2 r end.
 Fixpoint nw3 (l : list wthread) : N := match l with [] => 0 | t :: r => is_w3 t + nw3 r end.
-Definition l2 (s : est) : N := match et_stage (eloop s) with ES2 => 1 | _ => 0 end.
-Definition l3 (s : est) : N := match et_stage (eloop s) with ES3 | ER => 1 | _ => 0 end.
-Definition in_drain (s : est) : N := match et_stage (eloop s) with EF | EL _ | ER => 1 | _ => 0 end.
+Definition l2 (s : est) : N := match et_stage (eloop s) with ES2 | ELS2 _ => 1 | _ => 0 end.
+Definition l3 (s : est) : N := match et_stage (eloop s) with ES3 | ER | ELS3 _ => 1 | _ => 0 end.
+Definition in_drain (s : est) : N := match et_stage (eloop s) with EF | EL _ | ER | ELS1 _ _ | ELS2 _ | ELS3 _ => 1 | _ => 0 end.
 Definition at_store (s : est) : N := match et_stage (eloop s) with EF => 1 | _ => 0 end.
 
 (* no lost wake: a queued runnable always has a wake-up on its way - the eventfd is readable, or some sender is between its
@@ -51,7 +51,7 @@ Proof.
   intros Hinv. pose proof Hinv as (X0 & X1 & X2 & X5).
   unfold eloop_step. destruct (eloop s) as [ops stg] eqn:El. cbn [et_stage et_ops].
   unfold einv, l2, l3, in_drain, at_store, send_enq, send_swap, send_ping in *. rewrite El in *. cbn [et_stage] in *.
-  destruct stg as [|j| | | | |[|k]|].
+  destruct stg as [|j| | | | |[|k]| |j k|k|k].
   - destruct ops as [|[j|] r]; [rewrite El; cbn [et_stage]; exact Hinv| |].
     + ecbn. split; [|split; [|split]]; esolve X1 X2.
     + destruct (N.ltb_spec 0 (ectr s)); ecbn; (split; [|split; [|split]]); esolve X1 X2.
@@ -63,8 +63,11 @@ Proof.
   - ecbn. split; [|split; [|split]]; esolve X1 X2.
   - destruct (eq s) as [|j q'] eqn:Eq.
     + ecbn. split; [|split; [|split]]; esolve X1 X2.
-    + destruct (run_task (etasks s) j) as [tk' evs]. ecbn. split; [|split; [|split]]; esolve X1 X2; destruct k; esolve X1 X2.
+    + destruct (run_task (etasks s) j) as [[tk' evs] again]. destruct again; unfold after_task; ecbn; (split; [|split; [|split]]); esolve X1 X2; destruct k; esolve X1 X2.
   - ecbn. split; [|split; [|split]]; esolve X1 X2.
+  - ecbn. split; [|split; [|split]]; esolve X1 X2.
+  - unfold after_task. destruct (enotified s) eqn:En; ecbn; (split; [|split; [|split]]); esolve X1 X2; destruct k; esolve X1 X2.
+  - unfold after_task. ecbn. split; [|split; [|split]]; esolve X1 X2; destruct k; esolve X1 X2.
 Qed.
 
 Lemma einv_thread_step s i t : einv s -> nth_error (ethr s) i = Some t -> einv (wt_step s i t).
@@ -136,13 +139,14 @@ Qed.
 (* a completing poll delivers the output exactly once: the task is Done, its delivered counter is incremented by one *)
 Lemma run_task_delivers l j t : nth_error l j = Some t ->
   match tk_script t with
-  | true :: _ => exists t', nth_error (fst (run_task l j)) j = Some t' /\ tk_state t' = TDone /\ tk_delivered t' = tk_delivered t + 1 /\ tk_polls t' = tk_polls t + 1
-  | _ => exists t', nth_error (fst (run_task l j)) j = Some t' /\ tk_state t' = TIdle /\ tk_delivered t' = tk_delivered t /\ tk_polls t' = tk_polls t + 1
+  | 1 :: _ => exists t', nth_error (fst (fst (run_task l j))) j = Some t' /\ tk_state t' = TDone /\ tk_delivered t' = tk_delivered t + 1 /\ tk_polls t' = tk_polls t + 1
+  | 2 :: _ => exists t', nth_error (fst (fst (run_task l j))) j = Some t' /\ tk_state t' = TSched /\ tk_delivered t' = tk_delivered t /\ tk_polls t' = tk_polls t + 1 /\ snd (run_task l j) = true
+  | _ => exists t', nth_error (fst (fst (run_task l j))) j = Some t' /\ tk_state t' = TIdle /\ tk_delivered t' = tk_delivered t /\ tk_polls t' = tk_polls t + 1
   end.
 Proof.
   intros H. unfold run_task. rewrite H.
   assert (L : (j < length l)%nat) by (apply nth_error_Some; congruence).
   assert (U : forall x, nth_error (upd_task l j x) j = Some x).
   { clear - L. revert j L. induction l as [|y r IH]; intros [|j] L x; cbn in *; try lia; [reflexivity|apply IH; lia]. }
-  destruct (tk_script t) as [|[] r]; cbn [fst]; eexists; (split; [apply U|cbn; auto]).
+  destruct (tk_script t) as [|[|[[| |]|[| |]|]] r]; cbn [fst snd]; eexists; (split; [apply U|cbn; auto]).
 Qed.
